@@ -704,7 +704,13 @@ fn panic_class(msg: &str, after_rejection: bool) -> &'static str {
 }
 
 fn run_one(hdr: &Value, ops: &[Value], out: &mut Out) {
-    out.emit(&json!({"ev": "reset", "cfg": hdr}));
+    let mut hdr = hdr.clone();
+    if hdr.get("rem").is_none() {
+        hdr["rem"] = json!({});
+    }
+    let hdr = &hdr;
+    // the schedule travels with the run (as text: the trace spec ignores it) so that a rejected run can be re-executed
+    out.emit(&json!({"ev": "reset", "cfg": hdr, "ops": serde_json::to_string(ops).unwrap()}));
     let mut w = match guarded(|| make_world(hdr)) {
         Ok(w) => w,
         Err(msg) => {
